@@ -3,7 +3,7 @@
 it must build, vet and pass the suite; every check must stay silent.  Prints the alarms (candidate false alarms)."""
 import os, re, shutil, subprocess, sys, tempfile
 D, k = sys.argv[1], sys.argv[2]
-patch = f"/tmp/wt3-out/{D}/change{k}.diff"
+patch = os.environ.get("PRES_BASE", "/tmp/wt4-out") + f"/{D}/change{k}.diff"
 env = dict(os.environ, GOFLAGS="-mod=mod", GOPROXY="off", GOSUMDB="off", GOTOOLCHAIN="local", GOWORK="off")
 def run(cmd, cwd, timeout=900):
     p = subprocess.run(cmd, cwd=cwd, shell=True, env=env, capture_output=True, text=True, timeout=timeout)
